@@ -1,4 +1,5 @@
 import MLProps.Bridge
+import MLProps.LogDet
 import Mathlib.Analysis.Matrix.Spectrum
 import Mathlib.Analysis.Matrix.PosDef
 import Mathlib.Algebra.BigOperators.Group.List.Basic
@@ -51,19 +52,6 @@ theorem C13_vetting (raised notSpd notFinite : Bool) :
 theorem C13_features (dd : ℕ) : sdmlCheckFeatures dd = .error .valueError ↔ dd < 2 := by
   unfold sdmlCheckFeatures; split <;> simp_all
 
-/-- `log det X ≤ tr X − d` for positive definite `X`: the inequality behind weak duality of the
-graphical lasso (and behind the non-negativity of the LogDet divergence in C11/C12) -/
-theorem log_det_le_trace_sub (X : Matrix (Fin d) (Fin d) ℝ) (hX : X.PosDef) :
-    Real.log X.det ≤ X.trace - d := by
-  have hH := hX.isHermitian
-  rw [hH.det_eq_prod_eigenvalues, hH.trace_eq_sum_eigenvalues]
-  simp only [RCLike.ofReal_real_eq_id, id_eq]
-  rw [Real.log_prod (fun i _ => (hX.eigenvalues_pos i).ne')]
-  have : ∑ i, Real.log (hH.eigenvalues i) ≤ ∑ i, (hH.eigenvalues i - 1) :=
-    Finset.sum_le_sum fun i _ => Real.log_le_sub_one_of_pos (hX.eigenvalues_pos i)
-  calc ∑ i, Real.log (hH.eigenvalues i) ≤ ∑ i, (hH.eigenvalues i - 1) := this
-    _ = ∑ i, hH.eigenvalues i - d := by simp [Finset.sum_sub_distrib]
-
 /-- the penalty is non-negative and the gap is `objective − (d − logdet M)` -/
 theorem C13_gap_form (E M : Mat ℝ d d) (logdetM lam : ℝ) :
     sdmlGap E M lam = sdmlObjective E M logdetM lam - ((d : ℝ) - logdetM) := by
@@ -104,30 +92,6 @@ theorem frob_eq_trace (A B : Mat ℝ d d) (hB : ∀ a b, B a b = B b a) :
   apply Finset.sum_congr rfl; intro a _
   apply Finset.sum_congr rfl; intro b _
   rw [hB a b]
-
-/-- `log det W + log det N ≤ tr(W·N) − d` for positive definite `W = BᵀB` (B invertible) and `N` -/
-theorem log_det_mul_le (B N : Matrix (Fin d) (Fin d) ℝ) (hB : IsUnit B.det) (hN : N.PosDef) :
-    Real.log (Bᵀ * B).det + Real.log N.det ≤ ((Bᵀ * B) * N).trace - d := by
-  have hinj : Function.Injective B.vecMul := by
-    intro x y hxy
-    have hBB : B * B⁻¹ = 1 := Matrix.mul_nonsing_inv B hB
-    have hxy' : Matrix.vecMul x B = Matrix.vecMul y B := hxy
-    have : Matrix.vecMul (Matrix.vecMul x B) B⁻¹ = Matrix.vecMul (Matrix.vecMul y B) B⁻¹ := by rw [hxy']
-    simpa [Matrix.vecMul_vecMul, hBB] using this
-  have hX : (B * N * Bᴴ).PosDef := hN.mul_mul_conjTranspose_same hinj
-  have hX' : (B * N * Bᵀ).PosDef := by simpa [Matrix.conjTranspose_eq_transpose_of_trivial] using hX
-  have hdet : (B * N * Bᵀ).det = (Bᵀ * B).det * N.det := by
-    simp only [Matrix.det_mul, Matrix.det_transpose]; ring
-  have htr : (B * N * Bᵀ).trace = ((Bᵀ * B) * N).trace := by
-    rw [Matrix.trace_mul_comm, ← Matrix.mul_assoc]
-  have hdB : 0 < (Bᵀ * B).det := by
-    rw [Matrix.det_mul, Matrix.det_transpose]
-    have : B.det ≠ 0 := hB.ne_zero
-    exact mul_self_pos.mpr this
-  have hdN : 0 < N.det := hN.det_pos
-  have := log_det_le_trace_sub (B * N * Bᵀ) hX'
-  rw [hdet, htr, Real.log_mul hdB.ne' hdN.ne'] at this
-  exact this
 
 /-- **weak duality**: let `W = BᵀB` (any invertible `B`, e.g. a Cholesky factor of `M⁻¹`) be dual
 feasible — `|E − W| ≤ λ` off the diagonal, equal on it.  Then for every symmetric positive definite
